@@ -39,12 +39,15 @@ m = {
          'serves_properties': sorted(p for p, v in registry.P.items() if v['enabled']),
          'kind_free_text': 'Python analyses over the facts: path-sensitive typestate/guard dominance (paths.py), linear '
                            'normal form (lin.py), forwarding shape (shape.py), finite-domain abstract evaluation (fd.py), '
-                           'effects/lock sets and call graph (effects.py)'},
+                           'effects/lock sets and call graph (effects.py), algebraic normal forms with path enumeration, loop '
+                           'summaries and symbolic differentiation (sym.py)'},
     ],
     'checks': [],
     'not_applicable': [],
     'notes': 'Static analysis only: no registered command executes OMPL code. Exit 2 = analysis broken (neither pass '
-             'nor violation). known_findings.jsonl lists recorded findings and fixed: records.',
+             'nor violation). known_findings.jsonl lists recorded findings and fixed: records. Thorough tier = quick tier plus '
+             'the self-check seeds of the property (selfcheck/seeds.py) applied to scratch copies of the current tree under '
+             '$TMPDIR, removed afterwards: every rule is re-tested both ways.',
 }
 for pid in sorted(registry.P):
     v = registry.P[pid]
@@ -56,7 +59,7 @@ for pid in sorted(registry.P):
             'evidence_file': 'evidence/%s.json' % pid,
             'replay_cmd_template': 'python3 check.py %s --replay {path}' % pid,
             'engine': 'omplx+engines',
-            'level_claimed': {'category': 'other', 'text': v['text'], 'design_ref': 'DESIGN.md section 3, ' + pid},
+            'level_claimed': {'category': 'other', 'text': v['text'], 'design_ref': 'DESIGN.md section 3, ' + pid + '; as built: Revisions R1.2'},
             'level_note': v['note'],
             'technique': 'static analysis: ' + v['technique'],
         })
